@@ -326,6 +326,58 @@ def run_machine(ctx, sub, weighted, max_examples, steps):
         ctx.violation(sub, case, failure)
 
 
+def long_run_cases(seed, quick):
+    for k, n in enumerate((3000, 30000) if quick else (3000, 30000, 120000)):
+        yield {'kind': 'skew', 'n': n, 'seed': seed * 101 + k}
+    yield {'kind': 'churn', 'ops': 300000 if quick else 1500000, 'seed': seed * 103 + 7}
+
+
+def prop_long_run(case):
+    """what only shows after very many operations or very many consecutive rejections (iteration caps, periodic resynchronisation):
+    (skew) one candidate of weight 1e6 among n of weight 1e-9 - every selection must be the heavy one (a light one has probability
+    n*1e-15 < 2e-10); (churn) several 1e5 insertions/removals against a dict model, total weight compared at checkpoints"""
+    import random
+    cls = _get_class()
+    fails = []
+    R = random.Random(case['seed'])
+    random.seed(case['seed'])
+    try:
+        if case['kind'] == 'skew':
+            ld = cls(weighted=True)
+            n = case['n']
+            heavy = R.randrange(n)
+            for i in range(n):
+                ld.update(('c', i), weight_increment=(1.0e6 if i == heavy else 1.0e-9))
+            for _ in range(12):
+                got = ld.choose_random()
+                if got != ('c', heavy):
+                    fails.append(Failure('listdict:long-run:light-candidate-selected',
+                                         'one candidate of weight 1e6 among %d of weight 1e-9: choose_random returned %r of weight %r' % (n, got, ld.weight[got])))
+                    break
+        else:
+            ld = cls(weighted=True)
+            model = {}
+            pool = [0.25, 0.5, 1.0, 2.0, 3.0, 7.5, 0.125]
+            removals = 0
+            for step in range(case['ops']):
+                it = R.randrange(60)
+                if it in model and R.random() < 0.5:
+                    ld.remove(it); del model[it]; removals += 1
+                else:
+                    w = R.choice(pool)
+                    ld.insert(it, weight=w); model[it] = w
+                if step % 50000 == 49999 or step == case['ops'] - 1:
+                    tot = sum(model.values())
+                    if abs(ld.total_weight() - tot) > 1e-7 * max(1.0, tot) or len(ld) != len(model):
+                        fails.append(Failure('listdict:long-run:total_weight',
+                                             'after %d operations (%d removals) total_weight()=%r, sum of current weights=%r, len=%d vs %d'
+                                             % (step + 1, removals, ld.total_weight(), tot, len(ld), len(model))))
+                        break
+    except Exception as e:
+        fails.append(Failure('listdict:long-run:exception:%s' % type(e).__name__, '%r' % (e,)))
+    return Result(fails, nontrivial=True, classes=['long-run:' + case['kind']])
+
+
 @st.composite
 def weighted_spec_case(draw):
     """C03's generated rule sets, with every transition weighted (edge/node attribute or rate function) so that each
@@ -340,6 +392,8 @@ def weighted_spec_case(draw):
 
 
 def replay(ctx, sub, case):
+    if sub == 'long-run':
+        return prop_long_run(case).failures
     if sub == 'behavioural-generic':
         from . import c03
         return c03.prop_walk(case).failures
@@ -372,6 +426,8 @@ def run(ctx):
     else:
         run_machine(ctx, 'machine-weighted', True, 250 if quick else 4000, 40 if quick else 60)
         run_machine(ctx, 'machine-unweighted', False, 60 if quick else 600, 25)
+        from ..runner import run_cases
+        run_cases(ctx, 'long-run', long_run_cases(ctx.seed, quick), prop_long_run, case_timeout=600)
     try:
         from . import c01
         c01.behavioural_weighted(ctx, 'behavioural', quick)
